@@ -97,16 +97,20 @@ class QBytesTensor(QTensor):
     def __torch_dispatch__(cls, op, types, args, kwargs=None):
         from .qbytes_ops import get_qbytestensor_op_dispatch, qbytes_inplace_fallback
 
-        # Operations that write into one of their arguments need a dedicated fallback
+        # Operations that write into some of their arguments need a dedicated fallback
+        op_overload = op
         is_mutable = op._schema.is_mutable
         # Do not use directly op, but rather its overload
         op = op.overloadpacket
         # Look for a dispatched op accepting QBytesTensor inputs
         qdispatch = get_qbytestensor_op_dispatch(op)
+        if is_mutable and not op.__name__.endswith("_"):
+            # This is the out= variant of an operation: the dispatched ops only implement the functional one
+            qdispatch = None
         if qdispatch is not None:
             return qdispatch(*args, **kwargs)
         if is_mutable:
-            # No dispatch available: evaluate the out-of-place variant and write its result back
-            return qbytes_inplace_fallback(op, *args, **(kwargs or {}))
+            # No dispatch available: apply the operation to dequantized tensors and write the results back
+            return qbytes_inplace_fallback(op_overload, *args, **(kwargs or {}))
         # No dispatch available: qfallback
         return qfallback(op, *args, **kwargs)
